@@ -32,16 +32,19 @@ theorem index_built_before_the_single_store :
     setCertificatesOrder.all (fun e => e == "atomic-store" || e == "build-index") = true := by decide
 
 /-- `applyOuts`: sets are applied in the order the watcher sends them — one place in `TLSConfig` applies a set,
-and it is inside the range over the source's channel (one consumer goroutine). Excludes: a second applier
+and it is inside the loop that receives from the source's channel (`for v := range src.Certificates()` or the
+explicit `v, ok := <-ch` form of the same loop: one consumer goroutine). Excludes: a second applier
 (e.g. an eager `SetCertificates` from another goroutine), which could apply an older set after a newer one. -/
 theorem one_applier_in_channel_order :
-    tlsConfigApplySites = 1 ∧ tlsConfigApplySitesInRangeOverSource = 1 := by decide
+    tlsConfigApplySites = 1 ∧ tlsConfigApplySitesInReceiveLoopOverSource = 1 := by decide
 
-/-- `Out.publish`: what `watch` made from the loaded material leaves the loop through one plain, blocking send on
-the channel it was given; `watch` starts no goroutine of its own. Excludes: a `select { case ch <- certs: default: }`
-(a publication silently dropped whenever the consumer has not yet taken the previous one — the streams' consumers
-are always fast enough), a second send of something else, a publication from a goroutine racing with the loop. -/
+/-- `Out.publish`: a publication leaves `watch` through one plain, blocking send on the channel it was given;
+`watch` starts no goroutine of its own (counted over `watch` with its unexported helpers followed). Excludes: a
+`select { case ch <- certs: default: }` (a publication silently dropped whenever the consumer has not yet taken the
+previous one — the streams' consumers are always fast enough), a second send, a send on another channel, a
+publication from a goroutine racing with the loop. *What* is sent (the certificates made from the material just
+loaded) is input/output behaviour that `c11.watch` compares on every run: pinned in `C11Pins`. -/
 theorem publication_is_one_blocking_send :
-    watchSends = 1 ∧ watchSendsInSelect = 0 ∧ watchSendsMadeCertsOnChannelParam = true ∧ watchGoStmts = 0 := by decide
+    watchSends = 1 ∧ watchSendsInSelect = 0 ∧ watchSendsOnChannelParam = true ∧ watchGoStmts = 0 := by decide
 
 end Fabio.Props.C11Facts
